@@ -461,3 +461,42 @@ package kapacitor
 //@   ensures second(numToFloat(curr[n.d.Field])) && second(numToFloat(prev[n.d.Field])) && !result2 ==>
 //@       float64(currTime - prevTime) == 0.0
 //@       || (n.d.NonNegativeFlag && first(numToFloat(curr[n.d.Field])) - first(numToFloat(prev[n.d.Field])) < 0.0)
+
+// ---------------------------------------------------------------- state_tracking.go (C10)
+
+// stateCount: -1 and a restart when not in state, else one more than before.
+//@ func (*stateCountTracker).track
+//@   props C10
+//@   modifies sct.count
+//@   ensures !inState ==> sct.count == 0 && typeis(result, int64) && as(result, int64) == -1
+//@   ensures inState ==> sct.count == old(sct.count) + 1 && typeis(result, int64) && as(result, int64) == sct.count
+//@ func (*stateCountTracker).reset
+//@   props C10
+//@   modifies sct.count
+//@   ensures sct.count == 0
+
+// stateDuration: -1 and a restart when not in state, else (t - start of the state) / unit.
+//@ func (*stateDurationTracker).track
+//@   props C10
+//@   requires sdt.sd != nil
+//@   modifies sdt.startTime
+//@   ensures !inState ==> sdt.startTime == time.Time(0) && typeis(result, float64) && as(result, float64) == float64(-1)
+//@   ensures inState ==> sdt.startTime == ite(old(sdt.startTime) == time.Time(0), t, old(sdt.startTime))
+//@       && typeis(result, float64) && as(result, float64) == float64(t - sdt.startTime) / float64(sdt.sd.Unit)
+//@ func (*stateDurationTracker).reset
+//@   props C10
+//@   modifies sdt.startTime
+//@   ensures sdt.startTime == time.Time(0)
+
+// The received point is not touched: the tracked value is set on a copy.
+//@ func (*stateTrackingGroup).track
+//@   trusted
+//@   modifies gfi(p, mutated, bool)
+//@ func (*stateTrackingGroup).Point
+//@   props C10
+//@   requires g != nil && g.n != nil && p != nil && !gfi(p, mutated, bool)
+//@   ensures !gfi(p, mutated, bool)
+//@ func (*stateTrackingGroup).BatchPoint
+//@   props C10
+//@   requires g != nil && g.n != nil && bp != nil && !gfi(bp, mutated, bool)
+//@   ensures !gfi(bp, mutated, bool)
